@@ -124,6 +124,8 @@ def h : Handler := fun op j =>
   | "residual_multi" => do
       let st ← (← getArr j "stoich").mapM fun r => do (← asArr r).mapM asInt
       pure (showExc showRatList (equilibriumResidualMulti (← getRatList j "rc") (← getRatList j "c0") st (← getRatList j "K")))
+  | "lin_x0" => do
+      pure (showExc showRatList (linInternalX0 (← getNatList j "phases") (← getRxns j "rxns") (← getRatList j "c")))
   | "root_args" => do
       let x0 : Option (List Rat) ← match j.getObjVal? "x0" with
         | .ok .null => pure none
